@@ -912,7 +912,7 @@ def rule_r12(prog, res):
                         'attribute carrying the name of an ordinary member '
                         'raises AttributeError out of the request' %
                         at.value.id)
-    res.floor('R12', 'reads of the wrapped type of an attribute member', n, 6)
+    res.floor('R12', 'reads of the wrapped type of an attribute member', n, 3)
     # dict documents: iteration over a document value
     h = prog.cls('spyne.protocol.dictdoc.hier:HierDictDocument')
     g = h.methods.get('_doc_to_object')
@@ -1113,8 +1113,8 @@ MUTANTS = [
     Mutant('child-attribute-member-kind-unchecked', 'R12', 'fire',
            'spyne/protocol/xml.py',
            in_func('XmlDocument.complex_from_element',
-                   "                if not issubclass(submember, XmlAttribute):"
-                   "\n                    continue\n", ""), 'no-kind-test'),
+                   "            if not issubclass(member, XmlAttribute):"
+                   "\n                continue\n", ""), 'no-kind-test'),
     Mutant('repeated-member-scalar-iterated', 'R12', 'fire', _H,
            in_func('HierDictDocument._doc_to_object',
                    "                if not isinstance(v, AbcIterable):\n"
